@@ -52,7 +52,8 @@ func (s *Stash) LoadExpanded(filename string) {
 			}
 			panic(err)
 		}
-		if 0 < len(line) {
+		// An empty line separates forms unless it is inside a form.
+		if 0 < len(form) || 0 < len(line) {
 			if bytes.ContainsRune(line, '\t') {
 				for _, sub := range bytes.Split(line, []byte{'\t'}) {
 					buf = append(buf, sub...)
@@ -62,9 +63,7 @@ func (s *Stash) LoadExpanded(filename string) {
 			} else {
 				buf = append(buf, line...)
 				buf = append(buf, '\n')
-				if 0 < len(form) || 0 < len(line) {
-					form = append(form, []rune(string(line)))
-				}
+				form = append(form, []rune(string(line)))
 			}
 			if fullForm(buf) {
 				s.forms = append(s.forms, form)
